@@ -24,6 +24,20 @@ impl<'a> CodePointInversionList<'a> {
     { unimplemented!() }
 }
 
+// the inclusive bounds a std range of u32 denotes
+pub trait U32Range {
+    spec fn lo(&self) -> int;
+    spec fn hi(&self) -> int;
+}
+impl U32Range for core::ops::RangeInclusive<u32> {
+    open spec fn lo(&self) -> int { self@.start as int }
+    open spec fn hi(&self) -> int { self@.end as int }
+}
+impl U32Range for core::ops::Range<u32> {
+    open spec fn lo(&self) -> int { self.start as int }
+    open spec fn hi(&self) -> int { self.end as int - 1 }
+}
+
 #[verifier::external_body]
 pub struct CodePointInversionListBuilder { _p: core::marker::PhantomData<u8> }
 
@@ -50,9 +64,10 @@ impl CodePointInversionListBuilder {
         ensures forall|x: char| #[trigger] final(self).has(x) == (old(self).has(x) || (r@.start <= x && x <= r@.end)),
     { unimplemented!() }
 
+    // icu: `add_range32(&mut self, range: impl RangeBounds<u32>)`; both `a..=b` and `a..b` are accepted
     #[verifier::external_body]
-    pub fn add_range32(&mut self, r: &core::ops::RangeInclusive<u32>)
-        ensures forall|x: char| #[trigger] final(self).has(x) == (old(self).has(x) || (r@.start <= x as u32 && x as u32 <= r@.end)),
+    pub fn add_range32<R: U32Range>(&mut self, r: &R)
+        ensures forall|x: char| #[trigger] final(self).has(x) == (old(self).has(x) || (r.lo() <= x as u32 && x as u32 <= r.hi())),
     { unimplemented!() }
 
     #[verifier::external_body]
